@@ -299,7 +299,7 @@ fn main() {
     let n = check.pick(60_000, 5_000_000);
     check.stage("aa-unit", n, 16, ucase, unit_oracle);
     check.max_shrink_iters = 200;
-    let n = check.pick(300, 30_000);
+    let n = check.pick(600, 30_000);
     check.stage("e2e-unvalidated", n, 16, ecase, e2e_oracle);
     check.finish();
 }
